@@ -137,7 +137,7 @@ func runC18_2(c *core.Ctx) {
 		exitLits := map[*ast.FuncLit]bool{}
 		for _, call := range callsIn(f.Decl.Body, true) {
 			if flow.IsCall(f.Info, call, trig) && len(call.Args) == 3 {
-				if fl, ok := ast.Unparen(call.Args[1]).(*ast.FuncLit); ok {
+				if fl, ok := seeThrough(f, call.Args[1]).(*ast.FuncLit); ok {
 					exitLits[fl] = true
 				}
 			}
